@@ -162,6 +162,10 @@ impl SrtpSession {
             )?),
         };
         ctx.last_used = std::time::Instant::now();
+        #[cfg(rustrtc_verif)]
+        {
+            ctx.last_used = crate::verif_hooks::std_now();
+        }
         ctx.protect(packet, output)
     }
 
@@ -178,6 +182,10 @@ impl SrtpSession {
             )?),
         };
         ctx.last_used = std::time::Instant::now();
+        #[cfg(rustrtc_verif)]
+        {
+            ctx.last_used = crate::verif_hooks::std_now();
+        }
         ctx.unprotect(packet)
     }
 
@@ -198,6 +206,10 @@ impl SrtpSession {
             )?),
         };
         ctx.last_used = std::time::Instant::now();
+        #[cfg(rustrtc_verif)]
+        {
+            ctx.last_used = crate::verif_hooks::std_now();
+        }
         ctx.protect_rtcp(packet)
     }
 
@@ -219,6 +231,10 @@ impl SrtpSession {
             )?),
         };
         ctx.last_used = std::time::Instant::now();
+        #[cfg(rustrtc_verif)]
+        {
+            ctx.last_used = crate::verif_hooks::std_now();
+        }
         ctx.unprotect_rtcp(packet)
     }
 
@@ -230,6 +246,8 @@ impl SrtpSession {
             return;
         }
         let now = std::time::Instant::now();
+        #[cfg(rustrtc_verif)]
+        let now = crate::verif_hooks::std_now();
         self.tx_contexts.retain(|s, c| {
             *s == keep_ssrc || now.duration_since(c.last_used) < SSRC_INACTIVITY_EVICT
         });
@@ -241,6 +259,8 @@ impl SrtpSession {
             return;
         }
         let now = std::time::Instant::now();
+        #[cfg(rustrtc_verif)]
+        let now = crate::verif_hooks::std_now();
         self.rx_contexts.retain(|s, c| {
             *s == keep_ssrc || now.duration_since(c.last_used) < SSRC_INACTIVITY_EVICT
         });
